@@ -28,7 +28,7 @@ KApply(K, e, x) ==
   LET a == e.args IN
   CASE e.name = "from_bytes"   -> Sub(a[1], 1, K)
     [] e.name = "from_ascii"   -> Sub(MapBases(a[1]), 1, K)
-    [] e.name = "from_rank"    -> a[1]
+    [] e.name = "from_rank"    -> Zeros(K - Len(a[1])) \o a[1]          \* K > 32: the rank fills the last 32 bases
     [] e.name = "empty"        -> Zeros(K)
     [] e.name = "copy"         -> x
     [] e.name = "set"          -> [x EXCEPT ![a[1] + 1] = a[2]]
